@@ -135,6 +135,38 @@ class RunFor:
                 'Engine.run_for')
 
     # names --------------------------------------------------------------
+    @property
+    def end_name(self):
+        """The local that holds the end of the requested interval: the one
+        assigned ``self.global_time + <interval parameter>`` before the
+        scheduler loop ('end_time' when no such local is found)."""
+        from .dataflow import local_defs
+        ip = A.params_of(self.fnode)[1:2]
+        for name, ds in local_defs(self.fnode).items():
+            for d in ds:
+                v = d.value
+                if d.kind == 'assign' and isinstance(v, ast.BinOp) and \
+                        isinstance(v.op, ast.Add) and not within(
+                            d.stmt, self.while_loop) and {
+                            A.unparse(v.left), A.unparse(v.right)} == {
+                            'self.global_time', ip[0] if ip else ''}:
+                    return name
+        return 'end_time'
+
+    @property
+    def emit_names(self):
+        """Locals that hold the emit clock: those assigned or advanced by an
+        expression over self.emit_step."""
+        from .dataflow import local_defs
+        out = set()
+        for name, ds in local_defs(self.fnode).items():
+            for d in ds:
+                v = d.stmt.value if d.kind == 'aug' else d.value
+                if v is not None and d.kind in ('assign', 'aug') and \
+                        'self.emit_step' in A.unparse(v):
+                    out.add(name)
+        return out or {'emit_time'}
+
     def poll_targets(self):
         """(path var, process var) of the polling loop."""
         t = self.poll_loop.target
